@@ -55,10 +55,7 @@ CRATES = {
 # everything on the original lines so that file:line in solver output matches /repo.
 _MAP = "crate::verif_map"
 HASHMAP_SWAP = {
-    "core/src/report/price_db.rs": [
-        (r"use std::\{\n    collections::\{hash_map, BinaryHeap, HashMap\},\n    path::Path,\n\};",
-         "#[cfg(not(kani))] use std::collections::{hash_map, HashMap}; #[cfg(kani)] use %s::{hash_map, HashMap}; use std::{\n    path::Path,\n}; #[cfg(not(kani))] use std::collections::BinaryHeap; #[cfg(kani)] use crate::verif_heap::BinaryHeap;\n" % _MAP),
-    ],
+    "core/src/report/price_db.rs": "std_collections",
     "core/src/report/intern.rs": [
         (r"use std::\{collections::HashMap, fmt::Debug, hash::Hash, iter::FusedIterator, marker::PhantomData\};",
          "#[cfg(not(kani))] use std::collections::HashMap; #[cfg(kani)] use %s::HashMap; use std::{fmt::Debug, hash::Hash, iter::FusedIterator, marker::PhantomData};" % _MAP),
@@ -86,6 +83,48 @@ HASHMAP_SWAP = {
          "#[cfg(not(kani))] use std::collections::HashMap; #[cfg(kani)] use %s::HashMap; use std::borrow::Cow;" % _MAP),
     ],
 }
+
+
+_SWAPPED = {"hash_map": "verif_map", "HashMap": "verif_map", "HashSet": "verif_map", "BinaryHeap": "verif_heap"}
+
+
+def _swap_std_collections(text, path):
+    """Rewrites the file's import of std::collections (either `use std::collections::{..};` or the nested
+    `use std::{ collections::{..}, .. };`, whatever else it lists) so that HashMap / hash_map / HashSet /
+    BinaryHeap come from the models under cfg(kani). The number of lines is preserved."""
+    m = re.search(r"use std::\{[^;]*?collections::\{([^}]*)\}[^;]*?\};", text, flags=re.S)
+    nested = True
+    if not m:
+        m = re.search(r"use std::collections::\{([^}]*)\};", text)
+        nested = False
+    if not m:
+        raise OverlayError("overlay anchor not found in %s: import of std::collections" % path)
+    names = [n.strip() for n in m.group(1).split(",") if n.strip()]
+    swapped = [n for n in names if n in _SWAPPED]
+    kept = [n for n in names if n not in _SWAPPED]
+    if not swapped:
+        raise OverlayError("overlay anchor not found in %s: no HashMap/BinaryHeap in the std::collections import" % path)
+    stmt = m.group(0)
+    inner_old = re.search(r"collections::\{[^}]*\}", stmt).group(0)
+    if kept:
+        stmt_new = stmt.replace(inner_old, "collections::{%s}" % ", ".join(kept))
+    elif nested:
+        # drop the `collections::{..},` item, keep its line break
+        stmt_new = re.sub(r"collections::\{[^}]*\},?", "", stmt)
+    else:
+        stmt_new = ""
+    extra = " #[cfg(not(kani))] use std::collections::{%s};" % ", ".join(swapped)
+    for mod in ("verif_map", "verif_heap"):
+        ns = [n for n in swapped if _SWAPPED[n] == mod]
+        if ns:
+            extra += " #[cfg(kani)] use crate::%s::{%s};" % (mod, ", ".join(ns))
+    new_stmt = stmt_new + extra
+    # keep the line count: the replacement must contain as many newlines as the original statement
+    missing = stmt.count("\n") - new_stmt.count("\n")
+    if missing < 0:
+        raise OverlayError("overlay rewrite of %s would shift line numbers" % path)
+    new_stmt += "\n" * missing
+    return text[:m.start()] + new_stmt + text[m.end():]
 
 
 def _sub_once(text, pattern, repl, path):
@@ -140,6 +179,9 @@ def make_overlay(mode, crates=("core", "cli", "golden"), map_swap=True):
                 sp = os.path.join(dest, src)
                 with open(sp) as f:
                     text = f.read()
+                if subs == "std_collections":
+                    text = _swap_std_collections(text, src)
+                    subs = []
                 for pat, repl in subs:
                     text = _sub_once(text, pat, repl, src)
                 with open(sp, "w") as f:
